@@ -327,6 +327,15 @@ def rewrite(t, fn):
                     e2.append(x)
             effs.append(tuple(e2))
         n = (k, t[1], rewrite(t[2], fn), effs)
+    elif k == "guard":
+        if t[1] == "if":
+            n = (k, "if", t[2], rewrite(t[3], fn))
+        elif t[1] == "arm":
+            n = (k, "arm", rewrite(t[2], fn), t[3])
+        elif t[1] == "for":
+            n = (k, "for", rewrite(t[2], fn))
+        else:
+            n = t
     elif k == "match":
         n = (k, rewrite(t[1], fn), [(p, rewrite(g, fn) if g else g, rewrite(b, fn)) for p, g, b in t[2]])
     elif k == "if":
@@ -553,6 +562,20 @@ class Norm:
             return None
         return rewrite(t, sub)
 
+    def guard_terms(self, guards):
+        """guards as terms (so that substitution, e.g. when a helper is inlined, reaches them): ("guard", kind, ..)"""
+        out = []
+        for g in guards:
+            if g[0] == "if":
+                out.append(("guard", "if", bool(g[2]), self._t(g[1])))
+            elif g[0] == "arm":
+                out.append(("guard", "arm", self._t(g[1]), g[2]))
+            elif g[0] == "for":
+                out.append(("guard", "for", self._t(g[1])))
+            elif g[0] == "closure":
+                out.append(("guard", "closure"))
+        return out
+
     def guards_term(self, guards):
         out = []
         for g in guards:
@@ -610,7 +633,7 @@ class Norm:
             if effs and (lid in self.mut or any(k in ("assign", "assignop") for _, k, _g in effs)):
                 et = []
                 for node, kind, guards in effs:
-                    gt = tuple(self.guards_term(guards))
+                    gt = self.guard_terms(guards)
                     if kind == "assign":
                         et.append(("assign", self._lhs_path(node["l"]), self._t(node["r"]), gt))
                     elif kind == "assignop":
@@ -1056,7 +1079,25 @@ class Norm:
             c = e.get("callee")
             if c is None:
                 f = self._t(e["f"])
-                return ("call", "(" + show(f) + ")", [self._t(a) for a in e["args"]])
+                args = [self._t(a) for a in e["args"]]
+                fl = strip(e["f"])
+                once = fl.get("k") == "Path" and fl.get("r") == "local" and sum(
+                    1 for x in walk(self.body["body"]) if x.get("k") == "Call" and "callee" not in x and strip(x.get("f", {})).get("id") == fl.get("id")) == 1
+                if f[0] == "closure" and f[2] == len(args) and once:
+                    # calling a closure bound to a local is its body with the arguments in place (like a nested fn that captures)
+                    d = f[1]
+
+                    def beta(n):
+                        if n[0] == "cparam":
+                            if n[1] == d:
+                                return args[n[2]] if n[2] < len(args) else None
+                            if n[1] > d:
+                                return ("cparam", n[1] - 1, n[2])
+                        if n[0] == "closure" and n[1] > d:
+                            return ("closure", n[1] - 1, n[2], n[3])
+                        return None
+                    return rewrite(f[3], beta)
+                return ("call", "(" + show(f) + ")", args)
             if e.get("x") is not None and c.startswith("syn::__private::parse") and T.is_template_block(T.strip_keep_block(e["args"][0])) or \
                (c.startswith("syn::__private::parse") and e["args"] and T.is_empty_template(e["args"][0])):
                 return self._tpl(e["args"][0], "parse_quote:" + e.get("ty", ""))
@@ -2039,7 +2080,7 @@ def _show(t):
         effs = []
         for e in t[3]:
             g = e[-1]
-            gs = (" if " + "&&".join(g)) if g else ""
+            gs = (" if " + "&&".join(x if isinstance(x, str) else _show(x) for x in g)) if g else ""
             if e[0] == "assign":
                 effs.append((e[1] + "=" if e[1] else "=") + _show(e[2]) + gs)
             elif e[0] == "assignop":
@@ -2049,6 +2090,14 @@ def _show(t):
             elif e[0] == "mutarg":
                 effs.append(e[1] + "(" + ",".join(_show(a) for a in e[2]) + ")" + gs)
         return "mut[" + _show(t[2]) + ";" + ";".join(effs) + "]"
+    if k == "guard":
+        if t[1] == "if":
+            return ("" if t[2] else "!") + _show(t[3])
+        if t[1] == "arm":
+            return _show(t[2]) + "~" + t[3]
+        if t[1] == "for":
+            return "for(" + _show(t[2]) + ")"
+        return "closure"
     if k == "match":
         return "match(" + _show(t[1]) + "){" + ";".join(p + (" if " + _show(g) if g else "") + "=>" + _show(b) for p, g, b in t[2]) + "}"
     if k == "if":
@@ -2159,7 +2208,7 @@ def subterms(t):
         yield from subterms(t[1])
 
 
-_KINDS = {"seq", "early", "iflet-not", "param", "cparam", "sym", "lit", "def", "field", "proj", "elem", "try", "call", "closure", "struct", "tup",
+_KINDS = {"guard", "seq", "early", "iflet-not", "param", "cparam", "sym", "lit", "def", "field", "proj", "elem", "try", "call", "closure", "struct", "tup",
           "array", "mut", "match", "if", "iflet", "tpl", "fmt", "op", "cast", "index", "rindex", "rest", "ret", "break",
           "continue", "loop", "opaque", "repeat", "for"}
 
